@@ -476,3 +476,34 @@ def c06_12(ctx, r):
                 "submits max-nodes batches beside it", "the number of this submission's batches queued or running on the HPC is at most max-nodes", writer=fn.short)
     if n < 2:
         raise AnalysisError("C06.12", f"{n} writers of JobStatus.hpc_job_ids found")
+
+
+@rule(P, "C06.13", "T8", "`resubmit-jobs -s <groups file>` replaces the cluster's submission groups (the limits the next rounds read)", min_obligations=1)
+def c06_13(ctx, r):
+    """max-nodes and processes-per-node of the resubmission and of every later round are read from cluster.config.submission_groups (C06.5).
+    The groups-file branch of resubmit-jobs must therefore *store* each group it loaded into that list (by index, by append, or by assigning
+    the list) - a replacement made in some other mapping is lost, and the old, higher limits stay in force without a word."""
+    fn = ctx.fn("resubmit_jobs.resubmit_jobs", "C06.13")
+    sg = [s for s in ctx.cg.sites_in(fn) if (s.constructs or "").endswith("SubmissionGroup")]
+    if not sg:
+        raise AnalysisError("C06.13", "resubmit_jobs constructs no SubmissionGroup any more")
+    stores = []
+    for x in iter_own(fn.node):
+        if isinstance(x, ast.Assign):
+            for t in x.targets:
+                base = t.value if isinstance(t, ast.Subscript) else t
+                # the list itself, or a local alias of it (`orig_groups = cluster.config.submission_groups` - the same list object)
+                b2 = inlined_expr(ctx, fn, base) if isinstance(base, ast.Name) and isinstance(t, ast.Subscript) else base
+                if isinstance(b2, ast.Attribute) and render(ctx, fn, b2) == "<ClusterConfig.submission_groups>":
+                    stores.append((x, x.value))
+        if isinstance(x, ast.Call) and isinstance(x.func, ast.Attribute) and x.func.attr in ("append", "insert", "extend") and render(ctx, fn, x.func.value) == "<ClusterConfig.submission_groups>":
+            stores.append((x, x.args[-1] if x.args else None))
+    okv = False
+    for st, v in stores:
+        for nd in ctx.nodes_of(fn, ctx.stmt_of(fn, st) if not isinstance(st, ast.stmt) else st):
+            from ..lib import is_value_of
+
+            okv = okv or any(is_value_of(ctx, fn, v, nd, s.node) for s in sg)
+    r.check(bool(stores) and okv, "the loaded group is stored into cluster.config.submission_groups", key_of(fn, "new groups never reach the cluster config"), fn.loc(sg[0].node),
+            "resubmit-jobs builds SubmissionGroup objects from the groups file but never stores them into cluster.config.submission_groups: the resubmission and all later rounds keep the old max_nodes / "
+            "processes-per-node, although the command reports the parameters as updated", "at most max-nodes ... at most the configured processes-per-node")
